@@ -12,7 +12,7 @@ RULE = ('PARSE (mode projection is part of the tree dump): all strings up to len
         'enclosing constructs imply (math node body: math with the opening delimiter; argument with enter/leave delta; math environment body; '
         'otherwise inherited), math nodes record display/inline and delimiters as configured, and $a$$b$ is two inline formulas, $$a$$ one '
         'display formula; sig = set of (construct, mode) transitions seen')
-TRUSTED = ['expression arguments with allow_pre_space=False are outside the model (context D cases run through the oracle only)', 'tokenizer model (C11)', 'closed world of argument parsers']
+TRUSTED = ['tokenizer model (C11)', 'closed world of argument parsers']
 ASSUMPTIONS = ['delimiter lists in which no string is both an inline and a display delimiter (default configuration)']
 TRIVIAL_SIGS = ('none',)
 CASE_TIMEOUT = 10.0
